@@ -118,14 +118,15 @@ def run(ctx):
     if not bad:
         report.nontriv("table flow")
     # ---- R3 14-bit bound on recorded offsets
-    ins = [e for e in aca.events if e.get("callee") and e["callee"]["def"].endswith("VacantEntry::<'a, K, V, A>::insert")]
+    import compress as _compress
+    tins = _compress.table_insertions(aca)
+    ins = [x[0] for x in tins]
     report.count()
     if len(ins) != 1:
         viol(report, "C03-R3", "Name::compress_append", "insert", "expected exactly one insertion into the compression table (found %d)" % len(ins))
     else:
-        v = ins[0]["vals"][1]
         st = ins[0]["st"]
-        val = v[1] if v is not None and v[0] == "lin" else None
+        val = tins[0][1]
         if val is not None and len(val.t) == 1 and val.t[0][0] in aca.derived:
             wide = aca.derived[val.t[0][0]]
         else:
